@@ -2248,3 +2248,17 @@ PROPS["C06"]["level_text"] += (" Quoted key on the whole document (Props/C06KeyD
     "is accepted with x exactly when the key-level textKeyInt is (any rest, any position); c06_key_doc_bool - the instance {\"lit\":true}; "
     "kernel-checked examples {\"-128\":true} / {\"128\":true} / {\"-0\":true} / {\"1.0\":true} / {\"1e2\":true} into i8 / u8 / u16 keys, "
     "{\"340282366920938463463374607431768211455\":true} and 2^128 into u128 keys, {\"255\":[null]} into BTreeMap<u8, Vec<()>>.")
+PROPS["C19"]["partial"] = [p for p in PROPS["C19"]["partial"] if not p.startswith("c19_nested_capture / c19_top_complete / c19_field_capture on byte sources take")] + [
+    "c19_top_complete / c19_nested_capture / c19_nested_capture_map / c19_field_capture on byte sources take the UTF-8 validity of the captured "
+    "texts (and decoded keys) as hypothesis (it is what from_utf8 checks); for an input that is valid UTF-8 as a whole the hypothesis is "
+    "discharged (Props/C19Utf8.lean: c19_top_complete_valid_input, c19_nested_capture_valid_input, c19_nested_complete_valid_input, "
+    "c19_nested_capture_map_valid_input, c19_field_capture_valid_input - every captured text and key literal is cut out of the input at "
+    "ASCII bytes). For a byte input that is NOT valid UTF-8 as a whole (e.g. an ill-formed string inside the skipped value of an unknown "
+    "struct field) the original iff statements, with the per-capture hypothesis, remain the statement"]
+PROPS["C19"]["lean_targets"] = PROPS["C19"]["lean_targets"][:-1] + ["SJ.Props.C19Utf8"] + PROPS["C19"]["lean_targets"][-1:]
+PROPS["C19"]["level_text"] += (" UTF-8 of the whole input (Props/C19Utf8.lean over Proofs/C19Utf8.lean, Proofs/C19Utf8Map.lean): "
+    "c19_top_complete_valid_input, c19_nested_capture_valid_input (+ c19_nested_complete_valid_input), c19_nested_capture_map_valid_input and "
+    "c19_field_capture_valid_input restate the capture theorems for byte inputs that are valid UTF-8 as a whole: the conditions 'captured text "
+    "valid UTF-8' / 'decoded key valid UTF-8' disappear from the right-hand sides (a grammar value and a key literal start with an ASCII byte "
+    "and are followed by whitespace, a structural byte or the end of the input, so they are cut out at character boundaries - validUtf8_mid; "
+    "escape-decoding a valid literal gives valid UTF-8 - decodeItems_utf8).")
